@@ -3,7 +3,8 @@
 From Coq Require Import ZArith NArith List Bool Lia.
 From Texel Require Import gen.BookConsts BookGraph.NMap BookGraph.BookGraph BookGraph.Equations
   BookGraph.ScoreFacts BookGraph.CodecProofs BookGraph.LocalProofs BookGraph.LinkProofs BookGraph.UniqueProofs
-  BookGraph.FixProofs BookGraph.GlobalProofs.
+  BookGraph.FixProofs BookGraph.GlobalProofs BookGraph.DepthProofs BookGraph.PathProofs BookGraph.FuelProofs BookGraph.ReadProofs.
+From Coq Require Import Permutation.
 Import ListNotations.
 Local Open Scope Z_scope.
 
@@ -269,3 +270,92 @@ Proof.
   split. { split; [exact W8|]. vm_compute. tauto. }
   exact I.
 Qed.
+
+(** C19_fixpoint / C19_reload_reproduces: a history with a transposition, a mate score and a reload
+    satisfies every hypothesis ([steps_ok]); the file is what serializeBook writes *)
+Lemma succ_of_map_of_list : forall (l : list (N * list (N * N))) n,
+  succ_of (map_of_list l) n = fold_left (fun acc kv => if N.eqb n (fst kv) then snd kv else acc) l [].
+Proof.
+  intros l n. unfold map_of_list, succ_of.
+  assert (G : forall l m0, links_of (fold_left (fun m kv => nset (fst kv) (snd kv) m) l m0) n =
+                           fold_left (fun acc (kv : N * list (N * N)) => if N.eqb n (fst kv) then snd kv else acc) l (links_of m0 n)).
+  { induction l0 as [|kv t IH]; intro m0; cbn [fold_left]; [reflexivity|]. rewrite IH. f_equal.
+    unfold links_of. rewrite nget_nset. destruct (N.eqb n (fst kv)); reflexivity. }
+  rewrite G. unfold links_of. rewrite nget_nempty. reflexivity.
+Qed.
+
+Lemma demo_succ_cases_m : forall p m c, demo_succ p m = Some c ->
+  (p = 1 /\ m = 10 /\ c = 2)%N \/ (p = 1 /\ m = 11 /\ c = 3)%N \/ (p = 2 /\ m = 20 /\ c = 4)%N \/ (p = 3 /\ m = 21 /\ c = 4)%N.
+Proof.
+  intros p m c H. unfold demo_succ in H.
+  destruct (N.eqb p 1 && N.eqb m 10) eqn:E1.
+  { apply andb_prop in E1. destruct E1 as [A B]. apply N.eqb_eq in A, B. inversion H. tauto. }
+  destruct (N.eqb p 1 && N.eqb m 11) eqn:E2.
+  { apply andb_prop in E2. destruct E2 as [A B]. apply N.eqb_eq in A, B. inversion H. tauto. }
+  destruct (N.eqb p 2 && N.eqb m 20) eqn:E3.
+  { apply andb_prop in E3. destruct E3 as [A B]. apply N.eqb_eq in A, B. inversion H. tauto. }
+  destruct (N.eqb p 3 && N.eqb m 21) eqn:E4.
+  { apply andb_prop in E4. destruct E4 as [A B]. apply N.eqb_eq in A, B. inversion H. tauto. }
+  discriminate.
+Qed.
+
+Definition demo7 : list op :=
+  [OpAdd 2 200 [(10%N, 1%N)] []; OpAdd 3 150 [(11%N, 1%N)] []; OpAdd 4 400 [(20%N, 2%N); (21%N, 3%N)] [];
+   OpSet 1 0 10 100; OpSet 2 20 (-8) 100; OpSet 3 0 (-12) 100; OpSet 4 0 (31990) 100].
+Definition demo_G : book := run true bd0 (newBook 1 100) demo7.
+Definition demo_sl : list (N * list (N * N)) :=
+  [(1%N, [(10%N, 2%N); (11%N, 3%N)]); (2%N, [(20%N, 4%N)]); (3%N, [(21%N, 4%N)]); (4%N, [])].
+Definition demo_read : op := OpRead (serializeBook demo_G) [(1%N, 7%N); (2%N, 5%N); (3%N, 9%N); (4%N, 3%N)] demo_sl.
+
+Example demo_read_ok : read_ok demo_succ demo_G (serializeBook demo_G) demo_sl.
+Proof.
+  split; [exists (bk_keys demo_G); split; [apply Permutation_refl|reflexivity]|].
+  split; [|split; [|vm_compute; reflexivity]].
+  - intros n m c H. rewrite succ_of_map_of_list in H. cbn [demo_sl fold_left fst snd] in H.
+    destruct (N.eqb_spec n 4) as [->|_]; [destruct H|].
+    destruct (N.eqb_spec n 3) as [->|_]; [destruct H as [E|[]]; inversion E; reflexivity|].
+    destruct (N.eqb_spec n 2) as [->|_]; [destruct H as [E|[]]; inversion E; reflexivity|].
+    destruct (N.eqb_spec n 1) as [->|_]; [destruct H as [E|[E|[]]]; inversion E; reflexivity|destruct H].
+  - intros n m c _ _ H. rewrite succ_of_map_of_list. apply demo_succ_cases_m in H.
+    destruct H as [[-> [-> ->]]|[[-> [-> ->]]|[[-> [-> ->]]|[-> [-> ->]]]]]; vm_compute; tauto.
+Qed.
+
+Example demo_steps_ok : steps_ok demo_succ bd0 (newBook 1 100) (demo7 ++ [demo_read]).
+Proof.
+  pose proof demo_ops_ok as W. unfold demo_ops in W. cbn [ops_ok] in W.
+  destruct W as [W1 [W2 [W3 [W4 [W5 [W6 [W7 _]]]]]]].
+  unfold demo7. cbn [app steps_ok op_ok2].
+  assert (C : forall h pl, (forall p m, demo_succ p m = Some h -> In (m, p) pl) ->
+              forall (g : book) p m, In p (bk_keys g) -> demo_succ p m = Some h -> In (m, p) pl) by (intros; eauto).
+  split. { split; [exact W1|]. split; [vm_compute; reflexivity|]. split.
+           - intros p m _ H. apply demo_succ_cases_m in H. destruct H as [[-> [-> E]]|[[-> [-> E]]|[[-> [-> E]]|[-> [-> E]]]]]; try discriminate. left; reflexivity.
+           - intros m c K H. apply demo_succ_cases_m in H. vm_compute in K. destruct H as [[E _]|[[E _]|[[_ [_ E]]|[E _]]]]; try discriminate; destruct K as [<-|[]]; discriminate. }
+  split. { vm_compute. reflexivity. }
+  split. { split; [exact W2|]. split; [vm_compute; reflexivity|]. split.
+           - intros p m _ H. apply demo_succ_cases_m in H. destruct H as [[-> [-> E]]|[[-> [-> E]]|[[-> [-> E]]|[-> [-> E]]]]]; try discriminate. left; reflexivity.
+           - intros m c K H. apply demo_succ_cases_m in H. vm_compute in K. destruct H as [[E _]|[[E _]|[[E _]|[_ [_ E]]]]]; try discriminate; destruct K as [<-|[<-|[]]]; discriminate. }
+  split. { vm_compute. reflexivity. }
+  split. { split; [exact W3|]. split; [vm_compute; reflexivity|]. split.
+           - intros p m _ H. apply demo_succ_cases_m in H. destruct H as [[-> [-> E]]|[[-> [-> E]]|[[-> [-> E]]|[-> [-> E]]]]]; try discriminate; [left; reflexivity|right; left; reflexivity].
+           - intros m c _ H. apply demo_succ_cases_m in H. destruct H as [[E _]|[[E _]|[[E _]|[E _]]]]; discriminate. }
+  split. { vm_compute. reflexivity. }
+  split. { split; [exact W4|]. split; vm_compute; reflexivity. }
+  split. { vm_compute. reflexivity. }
+  split. { split; [exact W5|]. split; vm_compute; reflexivity. }
+  split. { vm_compute. reflexivity. }
+  split. { split; [exact W6|]. split; vm_compute; reflexivity. }
+  split. { vm_compute. reflexivity. }
+  split. { split; [exact W7|]. split; vm_compute; reflexivity. }
+  split. { vm_compute. reflexivity. }
+  split. { exact demo_read_ok. }
+  split. { vm_compute. reflexivity. }
+  exact I.
+Qed.
+
+(** what the theorems predict is what happens: the reloaded example has the saved values *)
+Example demo_reload_values :
+  bk_pending demo_G = [] /\
+  check_all bd0 (apply_op true bd0 demo_G demo_read) = [] /\
+  map (fun n => (depth (apply_op true bd0 demo_G demo_read) n, score_of (apply_op true bd0 demo_G demo_read) n)) [1; 2; 3; 4]%N =
+  map (fun n => (depth demo_G n, score_of demo_G n)) [1; 2; 3; 4]%N.
+Proof. vm_compute. repeat split; reflexivity. Qed.
